@@ -15,7 +15,7 @@ EXPLANATION = 'theorems about the builder models (bounds = rate * dt, invariance
 
 
 def scenarios(seed, tier):
-    n = 90 if tier == 'quick' else 1000
+    n = 200 if tier == 'quick' else 2000
     rnd = random.Random(seed * 7919 + 12)
     for i in range(n):
         oc = CT.gen_oracle_case(random.Random(rnd.getrandbits(48)))
